@@ -50,6 +50,11 @@ def callable_key(f):
   mod = getattr(f, '__module__', None)
   qn = getattr(f, '__qualname__', None)
   if mod is not None and qn is not None:
+    tag = getattr(f, '__canon_tag__', None)
+    if tag is not None:
+      # distinct function objects that share module and qualified name
+      # (closures made by one factory)
+      return (mod, qn, tag)
     return (mod, qn)
   return ('instance', type(f).__module__, type(f).__qualname__)
 
@@ -133,6 +138,13 @@ class Canon:
         return ('tuple', self.memo[id(x)], tuple(self.c(v) for v in x))
       return ('tuple', tuple(self.c(v) for v in x))
     if is_namedtuple(x):
+      if self.tuple_identity:
+        # a named tuple is never interned: which object it is can matter
+        r = self._visit(x)
+        if r is not None:
+          return r
+        return ('nt', t.__module__, t.__qualname__, self.memo[id(x)],
+                tuple(self.c(v) for v in x))
       return ('nt', t.__module__, t.__qualname__, tuple(self.c(v) for v in x))
     if t is dict or t is collections.defaultdict or t is collections.OrderedDict:
       r = self._visit(x)
